@@ -1381,7 +1381,12 @@ func (m *Machine) lenBound(t *Term) (int64, bool) {
 func (m *Machine) copyBytes(fr *frame, dst, src ByteSlice) Value {
 	tc := m.tc
 	dl, sl := m.lenOrZero(dst), m.lenOrZero(src)
-	n := tc.Ite(tc.Cmp(OpULt, sl, dl), sl, dl)
+	// decide which length is the minimum (forks only when both orders are feasible): keeps
+	// the copied length, and every offset derived from it, as simple as the shorter operand
+	n := dl
+	if m.branch(tc.Cmp(OpULt, sl, dl)) {
+		n = sl
+	}
 	if n.IsConst() && n.val == 0 {
 		return n
 	}
@@ -1396,6 +1401,12 @@ func (m *Machine) moveBytes(fr *frame, dst *ByteObj, doff *Term, src *ByteObj, s
 		k := int(n.val)
 		if k > 1<<20 {
 			panic(engineErr{fmt.Sprintf("copy of %d bytes", k)})
+		}
+		// whole-object copy: share the array term instead of moving byte by byte
+		if k >= 64 && dst != src && doff.IsConst() && doff.val == 0 && soff.IsConst() && soff.val == 0 &&
+			dst.size.IsConst() && src.size.IsConst() && dst.size.val == uint64(k) && src.size.val == uint64(k) && !dst.ro {
+			dst.assign(src)
+			return
 		}
 		tmp := make([]*Term, k)
 		for i := 0; i < k; i++ {
